@@ -12,8 +12,9 @@
       [encodeFuncFor]/[decodeFuncFor]) as a transition system: N threads, each step is one
       atomic Load or Store, any schedule.
 
-    Go panics are outcomes ([SPanic] / [TPanic]); a panic leaves the partially written
-    state behind (the caller may recover and keep using the encoder). *)
+    Go panics are outcomes ([SPanic], [RPanic]; a builder that panics makes the thread give up
+    its message); a panic leaves the partially written state behind (the caller may recover
+    and keep using the encoder). *)
 From Coq Require Import ZArith List Bool Lia.
 From KV Require Import Base.
 Import ListNotations.
